@@ -18,14 +18,13 @@
   Not proved (the full statements are the `def .. : Prop` below; checked by the oracle of
   harness/src/m_tri.rs against exact integer geometry on the real code, which the model reproduces
   op for op):
-  -- [V] a filled triangle covers every integer point strictly inside the mathematical triangle (`InteriorCovered`): carried by correspondence + oracle only
   -- [V] every covered point is inside the closed triangle or within Euclidean distance 1 of an edge segment (`CoveredWithinOnePixel`): carried by correspondence + oracle only
-  -- [V] two triangles sharing an edge leave no gap (`MeshGapFree`): carried by correspondence + oracle only
   -- [V] a one-pixel outline is the union of its three edge lines (`OutlineIsEdgeLines`; the join code for stroke width 1 is a model parameter, see EG/Model/Triangle.lean): carried by correspondence + oracle only
 -/
 import EG.Lemmas.TrianglePoints
 import EG.Lemmas.TriangleTranslate
 import EG.Lemmas.TriangleSpan
+import EG.Lemmas.TriangleCover
 namespace EG.C19
 open EG EG.Triangle
 
@@ -178,10 +177,12 @@ theorem triangle_row_span_translate (t : Triangle) (d : Pt) (y : Int) :
     Scanline.Moved d (t.span y) ((t.translate d).span (y + d.y)) :=
   span_translate t d y
 
-/-! ## Full-strength statements of the sub-claims that are not proved ([V]) -/
+/-! ## Exact integer geometry (the predicates of the oracle) -/
 
-/-- `(b - a) × (p - a)`. -/
+/-- `(b - a) × (p - a)` (twice the signed area of `a b p`). -/
 def cross (a b p : Pt) : Int := (b.x - a.x) * (p.y - a.y) - (b.y - a.y) * (p.x - a.x)
+
+theorem cross_eq_edgeFn (a b p : Pt) : cross a b p = edgeFn a b p := rfl
 
 /-- `p` is strictly inside the mathematical triangle. -/
 def StrictlyInside (t : Triangle) (p : Pt) : Prop :=
@@ -210,19 +211,94 @@ def OnOpenSegment (a b p : Pt) : Prop :=
   (p.x - a.x) * (b.x - a.x) + (p.y - a.y) * (b.y - a.y) <
     (b.x - a.x) * (b.x - a.x) + (b.y - a.y) * (b.y - a.y)
 
-/-- [V] A filled triangle covers every integer point inside the mathematical triangle. -/
-def InteriorCovered : Prop := ∀ (t : Triangle) (p : Pt), StrictlyInside t p → p ∈ t.points
+/-! ## A filled triangle covers the mathematical triangle -/
+
+/-- **A filled triangle covers every lattice point of the closed mathematical triangle** —
+interior and boundary — for every triangle with non-zero area whose bounding box is within the
+`i32` range. (For each row the point lies on or between two Bresenham edge lines; a y-major line has
+its pixel of that row within half a pixel of the ideal line, an x-major line has the first / last
+pixel of its run in that row on the far side.) -/
+theorem closed_triangle_covered (t : Triangle) (h : t.boundingBox.InRange) (p : Pt)
+    (hp : ClosedInside t p) : p ∈ t.points := by
+  obtain ⟨ha, hs⟩ := hp
+  simp only [cross_eq_edgeFn] at ha hs
+  rw [edgeFn_area] at ha
+  exact Triangle.closed_triangle_covered t h ha p hs
+
+example : (⟨⟨0, 0⟩, ⟨5, 1⟩, ⟨4, 6⟩⟩ : Triangle).boundingBox.InRange ∧
+    ClosedInside ⟨⟨0, 0⟩, ⟨5, 1⟩, ⟨4, 6⟩⟩ ⟨3, 3⟩ := by
+  refine ⟨by decide, ?_⟩
+  unfold ClosedInside cross; decide
+
+/-- **A filled triangle covers every integer point inside the mathematical triangle.** -/
+theorem interior_covered (t : Triangle) (h : t.boundingBox.InRange) (p : Pt)
+    (hp : StrictlyInside t p) : p ∈ t.points := by
+  apply closed_triangle_covered t h p
+  have hsum := edgeFn_sum t.v1 t.v2 t.v3 p
+  unfold StrictlyInside at hp
+  unfold ClosedInside
+  simp only [cross_eq_edgeFn] at hp ⊢
+  rcases hp with ⟨h1, h2, h3⟩ | ⟨h1, h2, h3⟩
+  · exact ⟨by omega, Or.inl ⟨by omega, by omega, by omega⟩⟩
+  · exact ⟨by omega, Or.inr ⟨by omega, by omega, by omega⟩⟩
+
+example : StrictlyInside ⟨⟨0, 0⟩, ⟨5, 1⟩, ⟨4, 6⟩⟩ ⟨3, 3⟩ := by
+  unfold StrictlyInside cross; decide
+
+/-- **Two triangles `(a,b,c)`, `(a,c,d)` on opposite sides of their shared edge `a c` leave no
+gap**: every integer point of the quadrilateral's interior — strictly inside one of the triangles
+or on the open shared edge — is in one of the two point lists. -/
+theorem mesh_gap_free (a b c d p : Pt)
+    (r1 : (Triangle.mk a b c).boundingBox.InRange) (r2 : (Triangle.mk a c d).boundingBox.InRange)
+    (hopp : (0 < cross a c b ∧ cross a c d < 0) ∨ (cross a c b < 0 ∧ 0 < cross a c d))
+    (hp : StrictlyInside ⟨a, b, c⟩ p ∨ StrictlyInside ⟨a, c, d⟩ p ∨ OnOpenSegment a c p) :
+    p ∈ (Triangle.points ⟨a, b, c⟩) ∨ p ∈ (Triangle.points ⟨a, c, d⟩) := by
+  rcases hp with hp | hp | hp
+  · exact Or.inl (interior_covered _ r1 p hp)
+  · exact Or.inr (interior_covered _ r2 p hp)
+  · -- on the shared edge: in the closed triangle `(a, c, d)`
+    right
+    apply closed_triangle_covered _ r2 p
+    obtain ⟨h0, h1, h2⟩ := hp
+    have hsum := edgeFn_sum a c d p
+    unfold ClosedInside
+    simp only [cross_eq_edgeFn] at h0 hopp ⊢
+    -- with `cross a c p = 0`: `L * cross c d p = (L - s) * cross a c d`
+    have e1 : edgeFn c d p * ((c.x - a.x) * (c.x - a.x) + (c.y - a.y) * (c.y - a.y)) =
+        edgeFn a c d * ((c.x - a.x) * (c.x - a.x) + (c.y - a.y) * (c.y - a.y)
+          - ((p.x - a.x) * (c.x - a.x) + (p.y - a.y) * (c.y - a.y)))
+        + edgeFn a c p * ((d.x - c.x) * (c.x - a.x) + (d.y - c.y) * (c.y - a.y)) := by
+      unfold edgeFn; ring
+    rw [h0] at e1 hsum
+    generalize (c.x - a.x) * (c.x - a.x) + (c.y - a.y) * (c.y - a.y) = L at *
+    generalize (p.x - a.x) * (c.x - a.x) + (p.y - a.y) * (c.y - a.y) = s at *
+    have hL : 0 < L := by omega
+    rcases hopp with ⟨_, hd⟩ | ⟨_, hd⟩
+    · -- `(a, c, d)` negatively oriented
+      refine ⟨by omega, Or.inr ⟨by omega, ?_, ?_⟩⟩
+      · by_contra hc
+        nlinarith [mul_pos (show 0 < edgeFn c d p by omega) hL,
+          mul_pos (show 0 < -edgeFn a c d by omega) (show 0 < L - s by omega)]
+      · by_contra hc
+        nlinarith [mul_pos (show 0 < edgeFn a c d - edgeFn c d p by omega) hL,
+          mul_pos (show 0 < -edgeFn a c d by omega) (show 0 < s by omega)]
+    · refine ⟨by omega, Or.inl ⟨by omega, ?_, ?_⟩⟩
+      · by_contra hc
+        nlinarith [mul_pos (show 0 < -edgeFn c d p by omega) hL,
+          mul_pos (show 0 < edgeFn a c d by omega) (show 0 < L - s by omega)]
+      · by_contra hc
+        nlinarith [mul_pos (show 0 < edgeFn c d p - edgeFn a c d by omega) hL,
+          mul_pos (show 0 < edgeFn a c d by omega) (show 0 < s by omega)]
+
+example : ((0 : Int) < cross ⟨0, 0⟩ ⟨4, 6⟩ ⟨-3, 4⟩ ∧ cross ⟨0, 0⟩ ⟨4, 6⟩ ⟨5, 1⟩ < 0) ∧
+    OnOpenSegment ⟨0, 0⟩ ⟨4, 6⟩ ⟨2, 3⟩ := by
+  unfold OnOpenSegment cross; decide
+
+/-! ## Full-strength statements of the sub-claims that are not proved ([V]) -/
 
 /-- [V] Every covered point is inside the triangle or within one pixel of an edge. -/
 def CoveredWithinOnePixel : Prop := ∀ (t : Triangle) (p : Pt), p ∈ t.points →
   ClosedInside t p ∨ NearSegment t.v1 t.v2 p ∨ NearSegment t.v2 t.v3 p ∨ NearSegment t.v3 t.v1 p
-
-/-- [V] Two triangles `(a,b,c)`, `(a,c,d)` on opposite sides of their shared edge `a c` leave no
-gap: every integer point of the quadrilateral's interior is in one of the two point lists. -/
-def MeshGapFree : Prop := ∀ (a b c d p : Pt),
-  ((0 < cross a c b ∧ cross a c d < 0) ∨ (cross a c b < 0 ∧ 0 < cross a c d)) →
-  (StrictlyInside ⟨a, b, c⟩ p ∨ StrictlyInside ⟨a, c, d⟩ p ∨ OnOpenSegment a c p) →
-  p ∈ (Triangle.points ⟨a, b, c⟩) ∨ p ∈ (Triangle.points ⟨a, c, d⟩)
 
 /-- [V] A one-pixel outline consists of its three edge lines (as the code orients them: the edges
 of the `sorted_clockwise` triangle, each from its second-next to its next vertex). -/
